@@ -63,10 +63,10 @@ Theorem roundtrip_Box_Status_constructed_decided : from_statement box_class box_
 Proof. exact (from_decided box_class box_fresh_object_status). Qed.
 
 (** ** Rows *)
-Theorem roundtrip_Constraint : forall r rest, load_constraint (dump_constraint r rest) = Some (r, rest).
-Proof. exact (fun r rest => RT_constraint r rest I). Qed.
-Theorem roundtrip_Generator : forall r rest, load_generator (dump_generator r rest) = Some (r, rest).
-Proof. exact (fun r rest => RT_generator r rest I). Qed.
+Theorem roundtrip_Constraint : forall r rest, wf_crow r -> load_constraint (dump_constraint r rest) = Some (r, rest).
+Proof. exact RT_constraint. Qed.
+Theorem roundtrip_Generator : forall r rest, wf_genrow r -> load_generator (dump_generator r rest) = Some (r, rest).
+Proof. exact RT_generator. Qed.
 Theorem roundtrip_Congruence : forall r rest, load_congruence (dump_congruence r rest) = Some (r, rest).
 Proof. exact (fun r rest => RT_congruence r rest I). Qed.
 Theorem roundtrip_Grid_Generator : forall r rest, load_grid_generator (dump_grid_generator r rest) = Some (r, rest).
